@@ -234,10 +234,6 @@ def _factor_long_intermediate(expr: e.Expr, itmd: list[EriOrbenergy],
                 itmd_indices = tuple(variant_data['sub'].get(s, s) for s in
                                      itmd_default_symbols)
 
-                # - check that none of the contracted itmd indices appears
-                #   in the remainder!
-                # error or continue? probably better have a look if the error
-                # thrown and decide then
                 contracted_itmd_indices = tuple(
                     variant_data['sub'].get(s, s)
                     for s in itmd_contracted_symbols
@@ -252,13 +248,13 @@ def _factor_long_intermediate(expr: e.Expr, itmd: list[EriOrbenergy],
                 if _contracted_indices_coincide(contracted_itmd_indices,
                                                 itmd_indices):
                     continue
+                # - check that none of the contracted itmd indices appears
+                #   in the remainder: the itmd can not be factored if the
+                #   remainder depends on one of the summation indices
                 remainder_indices = set(remainder.idx)
                 if any(s in remainder_indices
                        for s in contracted_itmd_indices):
-                    raise RuntimeError("Invalid contracted itmd indices "
-                                       f"{contracted_itmd_indices} found "
-                                       "that also appear in the remainder:\n"
-                                       f"{remainder}")
+                    continue
 
                 # - minimize the indices of the intermediate to ensure that
                 #   the same indices are used in each term of the long itmd
@@ -468,6 +464,9 @@ def _factor_short_intermediate(expr: e.Expr, itmd: EriOrbenergy,
                     [var['sub'].get(s, s) for s in itmd_contracted_symbols],
                     [var['sub'].get(s, s) for s in itmd_default_symbols]
                 )
+                and not _contracted_idx_in_remainder(
+                    term, var, itmd_contracted_symbols
+                )
             ]
         if not variants:
             factored += term.expr
@@ -527,14 +526,6 @@ def _factor_short_intermediate(expr: e.Expr, itmd: EriOrbenergy,
         #   just use whatever is found
         itmd_indices = tuple(variant_data['sub'].get(s, s) for s in
                              get_symbols(itmd_cls.default_idx))
-
-        contracted_itmd_indices = tuple(variant_data['sub'].get(s, s)
-                                        for s in itmd_contracted_symbols)
-        remainder_indices = set(remainder.idx)
-        if any(s in remainder_indices for s in contracted_itmd_indices):
-            raise RuntimeError("Invalid contracted itmd indices "
-                               f"{contracted_itmd_indices} found that also "
-                               f"appear in the remainder:\n{remainder}")
 
         # - determine the prefactor of the factored term
         pref = term.pref * variant_data['factor'] / itmd.pref
@@ -747,11 +738,26 @@ def _contracted_indices_coincide(contracted_itmd_indices: tuple,
 def _build_factored_term(remainder: e.Expr, pref, itmd_cls,
                          itmd_indices) -> e.Expr:
     """Builds the factored term."""
+    # the tensor might come with a prefactor of -1 if the itmd_indices are
+    # not in canonical order
     tensor = itmd_cls.tensor(indices=itmd_indices, return_sympy=True)
     # resolve the Zero placeholder for residuals
-    if tensor.name == "Zero":
+    if any(t.name == "Zero" for t in tensor.atoms(SymbolicTensor)):
         return e.Expr(0, **remainder.assumptions)
     return remainder * pref * tensor
+
+
+def _contracted_idx_in_remainder(term: EriOrbenergy, variant_data: dict,
+                                 itmd_contracted_symbols: tuple) -> bool:
+    """
+    Whether one of the contracted indices of the intermediate also occurs
+    in the part of the term that remains if the given variant is factored.
+    """
+    remainder = _get_remainder(term, variant_data['eri_i'],
+                               variant_data['denom_i'])
+    remainder_indices = set(remainder.idx)
+    return any(variant_data['sub'].get(s, s) in remainder_indices
+               for s in itmd_contracted_symbols)
 
 
 def _get_remainder(term: EriOrbenergy, obj_i: list[int],
